@@ -152,6 +152,15 @@ Proof.
   apply nth_error_None in N. lia.
 Qed.
 
+Lemma with_args0_nonvar : forall t, is_nonvar_b t = true -> class_functor t = false -> with_args0_ok t = RVal tt.
+Proof. intros t NV C. destruct t; cbn in *; try discriminate; try reflexivity. rewrite C. reflexivity. Qed.
+Lemma with_args0_not_stuck : forall t k, is_nonvar_b t = true -> (forall u, is_stuck (k u) = false) ->
+  is_stuck (bindo (with_args0_ok t) k) = false.
+Proof.
+  intros t k NV K. destruct t; cbn in NV; try discriminate; cbn [with_args0_ok]; try apply K.
+  destruct (class_functor (PApp f args)); [reflexivity|apply K].
+Qed.
+
 Lemma split_call_safe : forall t p, is_stuck (body_split_call [t; p]) = false.
 Proof.
   intros. unfold body_split_call. apply with_mode_cases; [reflexivity|]. rewrite modes_split_call.
@@ -159,8 +168,23 @@ Proof.
   - destruct (fst (list_elements p)) as [|hd [|x r]]; try reflexivity.
     destruct (is_atom_b hd) eqn:A; cbn [negb]; [|reflexivity].
     destruct (call_term_atom hd (x :: r) A) as [t' Ht]. rewrite Ht. reflexivity.
-  - rewrite (attr_ok_nonvar _ L). reflexivity.
-  - rewrite (attr_ok_nonvar _ L). reflexivity.
+  - apply with_args0_not_stuck; [exact L|reflexivity].
+  - apply with_args0_not_stuck; [exact L|reflexivity].
+Qed.
+
+(* ... and outside the special-class functors the "nv"/"nl" branches return normally (no OUnknown escape hatch) *)
+Lemma split_call_decided : forall t p, class_functor t = false ->
+  body_split_call [t; p] <> OUnknown.
+Proof.
+  intros t p C. unfold body_split_call, with_mode. rewrite modes_split_call.
+  destruct (check_mode [t; p] ["vL"; "nv"; "nl"]) as [i| |] eqn:E; try discriminate.
+  apply check_mode_first_match in E. destruct E as [(m & Hn & Hs) _].
+  nth_cases Hn; letters Hs; cbn [Nat.eqb].
+  - destruct (fst (list_elements p)) as [|hd [|x r]]; try discriminate.
+    destruct (negb (is_atom_b hd)); [discriminate|]. destruct (call_term hd (x :: r)) as [u|o] eqn:CT; cbn [bindo]; [discriminate|].
+    destruct hd; cbn in CT; inversion CT; discriminate.
+  - rewrite (with_args0_nonvar _ L C). discriminate.
+  - rewrite (with_args0_nonvar _ L C). discriminate.
 Qed.
 
 Lemma compare_safe : forall c a b, is_stuck (body_compare [c; a; b]) = false.
